@@ -1,9 +1,10 @@
 (* C09 -- property theorems only: statement + exact + Print Assumptions. *)
-From Coq Require Import List ZArith.
+From Coq Require Import List ZArith Bool.
 From LJT Require Import model.SuspendCore model.SuspendMarker model.SuspendHuff model.SuspendEnc
   proofs.SuspendProofs proofs.SuspendWriteProofs proofs.SuspendMarkerProofs proofs.SuspendTheorems
   proofs.SuspendHuffProofs proofs.SuspendScanTheorems proofs.SuspendEncProofs
-  model.SuspendBuf proofs.SuspendBufProofs model.SuspendLatch proofs.SuspendLatchProofs gen.GenSuspend.
+  model.SuspendBuf proofs.SuspendBufProofs model.SuspendLatch proofs.SuspendLatchProofs
+  model.SuspendRefine proofs.SuspendRefineProofs gen.GenSuspend.
 Import ListNotations.
 
 (* (1) generic: for a resumable unit parser every partition of the byte string gives the
@@ -82,6 +83,70 @@ Print Assumptions C09_output_buffer_irrelevant.
 Theorem C09_source_discipline : suspension_discipline = true.
 Proof. exact (eq_refl true). Qed.
 Print Assumptions C09_source_discipline.
+
+(* the numeric constants of the models are those of the current source (jdhuff.h / jdhuff.c / jchuff.c) *)
+Theorem C09_source_constants :
+  W64 = (2 ^ src_bit_buf_size)%Z /\ MIN_GET_BITS = src_min_get_bits /\ HUFF_LOOKAHEAD = src_huff_lookahead /\
+  FAST_BUFSIZE = src_dec_bufsize /\ BUFSIZE = src_enc_bufsize /\ FAST_FILL_THRESHOLD = src_fast_fill_threshold /\
+  src_fast_fill_bytes = 6.
+Proof. exact (conj eq_refl (conj eq_refl (conj eq_refl (conj eq_refl (conj eq_refl (conj eq_refl eq_refl)))))). Qed.
+Print Assumptions C09_source_constants.
+
+(* (2'') progressive AC refinement (jdphuff.c decode_mcu_AC_refine): the block is modified in place; on a
+   suspension the newly nonzero coefficients are re-zeroed (newnz_pos[]) but correction bits stay, recognised
+   on the re-run by (coef & p1) != 0.  The unit -- including re-invocation on that DIRTY block -- is resumable,
+   hence the refined coefficients do not depend on the chunking *)
+Theorem C09_ac_refine_unit_resumable : forall c, resumable (refine_unit c) refine_slack.
+Proof. exact refine_unit_resumable. Qed.
+Print Assumptions C09_ac_refine_unit_resumable.
+
+Theorem C09_ac_refine_chunking_irrelevant : forall c cs s, run_refine c cs s = run_refine c [concat cs] s.
+Proof. exact (fun c cs s => chunking_irrelevant_generic _ _ _ _ (refine_unit_resumable c) cs s). Qed.
+Print Assumptions C09_ac_refine_chunking_irrelevant.
+
+(* the fast path of decode_mcu, partial: decode_mcu_fast never suspends or fails; when it is not eligible or
+   abandons the MCU (marker seen) nothing is committed and decode_mcu is exactly the slow unit covered by
+   C09_huffman_unit_resumable.  That a COMPLETED fast MCU yields the coefficients of the slow path (with a
+   different prefetch state) is checked by the correspondence streams only. *)
+Theorem C09_fast_path_fallback_partial : forall bls s p,
+  (usefast bls s p && negb (h_insuf s) = false \/ fast_mcu bls s p = None -> mcu_unit_sw bls s p = mcu_unit bls s p) /\
+  (mcu_unit_sw bls s p = mcu_unit bls s p \/
+   exists last blocks b, fast_mcu bls s p = Some (last, blocks, b) /\ f_mark b = 0%Z /\
+     mcu_unit_sw bls s p =
+     Done (commit_mcu s {| gb := f_gb b; bl := f_bl b; rest := f_rest b; um := 0; insuf := false; wn := h_warn s |} last blocks)
+          (length p - length (f_rest b)) 0).
+Proof. exact (fun bls s p => conj (switch_falls_back bls s p) (switch_shape bls s p)). Qed.
+Print Assumptions C09_fast_path_fallback_partial.
+
+(* (5''') buffered-image mode, multi-scan (progressive) coefficient arrays: under EVERY application schedule a row
+   rendered by a pass on scan N holds at least the scans 1..N (consistent prefix of the scan sequence), and once the
+   input is complete every row holds all scans *)
+Theorem C09_progressive_pass_consistent : forall nscans nrows ops N r, 1 <= nscans -> 1 <= nrows -> N <= nscans -> r < nrows ->
+  N <= fst (prender output_rows_ahead nscans nrows N r (prun output_rows_ahead nscans nrows ops)).
+Proof. exact (fun nscans nrows ops N r => progressive_pass_consistent output_rows_ahead nscans nrows ops N r (le_n 1)). Qed.
+Print Assumptions C09_progressive_pass_consistent.
+
+Theorem C09_progressive_final_pass : forall nscans nrows ops r, 1 <= nscans -> 1 <= nrows ->
+  p_eoi (prun output_rows_ahead nscans nrows ops) = true -> r < nrows ->
+  nth r (p_ver (prun output_rows_ahead nscans nrows ops)) 0 = nscans.
+Proof. exact (fun nscans nrows ops r H1 H2 => progressive_final_pass nscans nrows _ r (prun_inv output_rows_ahead nscans nrows ops H1 H2)). Qed.
+Print Assumptions C09_progressive_final_pass.
+
+Example C09_ex_refine_dirty_every_split :
+  forallb (fun cs => if list_eq_dec (list_eq_dec Z.eq_dec)
+                          (refine_summary2 (run_refine ex_dcfg cs (qinit 0 [ex_dblock])))
+                          [[7; 10; -12; 6; -8; 12; -4; 10; -14; 4]%Z]
+                     then true else false) (splits_of ex_dbytes) = true.
+Proof. exact ex_refine_dirty_every_split. Qed.
+
+Example C09_ex_refine_state_is_dirty :
+  match run_refine ex_dcfg [firstn 8 ex_dbytes] (qinit 0 [ex_dblock]) with
+  | Susp s _ _ => (firstn 4 (hd [] (q_todo s)), skipn 63 (hd [] (q_todo s))) | _ => ([], []) end
+  = ([7; 10; -12; 6]%Z, [4%Z]).
+Proof. exact ex_refine_state_is_dirty. Qed.
+
+Example C09_progressive_zero_ahead_refuted : fst (prender 0 3 4 3 0 (prun 0 3 4 (repeat PConsume 8))) < 3.
+Proof. exact progressive_zero_ahead_refuted. Qed.
 
 (* (5) buffered-image mode, partial: proved for the input/output interlock model of the lossless decoder
    (one scan, one sample per row): the image shown by the final pass is the plain undifferenced image
